@@ -69,9 +69,10 @@ def encode(code, traits, use_invalid=False, add_new=False):
     next_code = max(code.values(), default=1)
 
     for trait in traits:
-        if trait in code:
+        # INVALID is a reserved key of the code, never a trait of its own.
+        if trait != INVALID and trait in code:
             result |= code[trait]
-        elif add_new:
+        elif trait != INVALID and add_new:
             next_code = next_code << 1
             code[trait] = next_code
             result |= code[trait]
